@@ -41,6 +41,7 @@ fn field_u32(buf: &mut Vec<u8>, code: u8, v: u32) {
 struct Incoming {
     serial: u32,
     typ: u8, // 1 call, 2 method return
+    extra_reply_serial: bool, // a call that also carries a REPLY_SERIAL field (allowed on the wire)
     object: Option<Vec<u8>>,
     sender: Option<Vec<u8>>,
 }
@@ -53,6 +54,9 @@ fn encode(m: &Incoming) -> Vec<u8> {
     }
     if m.typ == 1 {
         field_str(&mut fields, 3, b's', b"M");
+        if m.extra_reply_serial {
+            field_u32(&mut fields, 5, 999);
+        }
     } else {
         field_u32(&mut fields, 5, 999);
     }
@@ -338,7 +342,8 @@ fn do_run(routes: &str, msgs: &str) -> String {
             let serial: u32 = f[0].parse().unwrap();
             incoming.push(Incoming {
                 serial,
-                typ: if f[1] == "c" { 1 } else { 2 },
+                typ: if f[1] == "c" || f[1] == "k" { 1 } else { 2 },
+                extra_reply_serial: f[1] == "k",
                 object: opt_bytes(f[2]),
                 sender: opt_bytes(f[3]),
             });
